@@ -67,4 +67,27 @@ CHECKS = {
   "technique": "Coq proof: pullback theorem by structural induction + "
                "split_is_pullback; vm_compute correspondence of measure terms",
  },
+ "C04": {
+  "text": "Theorems (all graphs, weights, attributes, groups, all "
+          "permutations given as lists): renumbering as permuted_copy performs "
+          "it (sp_A[idx][:, idx], node_weights[idx]) is a weighted pullback "
+          "along idx, hence every term of the measure language is invariant "
+          "(global) / permuted (per node, per pair) - this covers the 41 "
+          "measure terms of C02 and, at unit weights, their unweighted "
+          "relatives; unique-pair loops with a symmetric summand do not depend "
+          "on the order of the node list (covers the four cross-clustering / "
+          "transitivity kernels). The permute model is compared with "
+          "permuted_copy inside Coq. All other measures (every public query "
+          "of Network found by reflection, InteractingNetworks node-list "
+          "methods, ResNetwork measures) are checked directly on the "
+          "implementation against rebuilt renumbered objects (partial: no "
+          "theorem for igraph-backed, spectral, resistive measures).",
+  "design_ref": "DESIGN.md section 5, C04",
+  "note": "trusted: measure terms = code by correspondence (C02); "
+          "independence of the removed row/column in Newman betweenness and "
+          "of eigenvector normalisation is checked numerically only",
+  "technique": "Coq proof: permute_is_pullback + pullback theorem + "
+               "pair_loop_order_free; direct renumbering check on the "
+               "implementation",
+ },
 }
